@@ -99,6 +99,35 @@ def hist_task(t):
     return res
 
 
+LEVEL_POOLS = {'PROP': [['(or p q r)', '(not p)', '(not q)', '(not r)'], ['(or p q)', '(or (not p) q)', '(or p (not q))', '(or (not p) (not q))']]}
+
+
+def level_task(t):
+    """every assignment of 4 assertions to {absent, level 0, level 1, level 2} (both orders inside a level): assert level 0,
+    push, level 1, push, level 2, check-sat, get-proof, pop, check-sat, get-proof"""
+    famname, pi, start, step = t
+    fam = F.FAMILIES[famname]
+    pool = LEVEL_POOLS[famname][pi] if famname in LEVEL_POOLS and pi < len(LEVEL_POOLS[famname]) else H.POOLS[famname][:4]
+    res = core.new_result(); cov = res['cov']
+    w = S.worker()
+    jobs = [(pl, rev) for pl in itertools.product(range(4), repeat=len(pool)) for rev in (False, True) if any(pl)]
+    for pl, rev in jobs[start::step]:
+        lv = {k: [pool[i] for i in (reversed(range(len(pool))) if rev else range(len(pool))) if pl[i] == k] for k in (1, 2, 3)}
+        body = ''.join('(assert %s)' % a for a in lv[1]) + '(push 1)' + ''.join('(assert %s)' % a for a in lv[2]) + '(push 1)' + ''.join('(assert %s)' % a for a in lv[3])
+        script = '(set-option :produce-proofs true)(set-logic %s)%s%s(check-sat)(echo "@@")(get-proof)(echo "@@")(pop 1)(check-sat)(echo "@@")(get-proof)' % (fam.logic, fam.decls, body)
+        r = w.run(script, trace=True, timeout=5)
+        cov['executions'] += 1
+        if r.timeout or r.crash: cov['timeouts_or_crashes'] += 1; continue
+        parts = r.out.split('@@\n')
+        tr = T.Trace(r.trace); snaps = snapshots(tr)
+        if len(parts) >= 2 and S.blocks(parts[0])[-1:] == ['unsat'] and parts[1].strip().startswith('(proof') and snaps:
+            judge_proof(fam, (), script, parts[1], snaps[0], tr, res, 'levels')
+        if len(parts) >= 4 and S.blocks(parts[2])[-1:] == ['unsat'] and parts[3].strip().startswith('(proof') and len(snaps) > 1:
+            judge_proof(fam, (), script, parts[3], snaps[1], tr, res, 'levels:unsat_frame_popped' if S.blocks(parts[0])[-1:] == ['unsat'] else 'levels')
+        if len(res['samples']) < 1: res['samples'].append({'script': script, 'stdout': r.out[:300]})
+    return res
+
+
 def run(prop, tier):
     chk = core.Check('C10', tier, 'exploration',
                      'every unsat assertion set (size<=2 full pools, <=3 6-atom pools) of all 17 families and every history (length<=6, 3 assertions) with :produce-proofs and get-proof after every unsat answer; '
@@ -111,7 +140,9 @@ def run(prop, tier):
     chk.run_stage('n<=2, full pools, default + SatELite/lookahead', [(f, 'full', 2, [(), ('noincr',), ('picky',)], s, 4) for f in fams for s in range(4)], set_task)
     chk.run_stage('n<=3, 6-atom pools', [(f, 'core', 3, [()], s, 8) for f in coref for s in range(8)], set_task)
     chk.run_stage('histories L<=6 (3 assertions)', [(f, 3, 6, (), s, 4) for f in H.HIST_LOGICS_QUICK for s in range(4)], hist_task)
-    chk.run_stage('histories L<=7 (2 assertions)', [(f, 2, 7, (), s, 4) for f in H.HIST_LOGICS_QUICK for s in range(4)], hist_task)
+    ltasks = [('PROP', 0, s, 2) for s in range(2)] + [('PROP', 1, s, 2) for s in range(2)] + [(f, 9, s, 2) for f in H.HIST_LOGICS_QUICK if f != 'PROP' for s in range(2)]
+    chk.run_stage('level placements: 4 assertions x {absent, level 0, 1, 2} x 2 orders; proof at depth 2 and after one pop', ltasks, level_task)
+    chk.run_stage('histories L<=7 (2 assertions)',[(f, 2, 7, (), s, 4) for f in H.HIST_LOGICS_QUICK for s in range(4)], hist_task)
     if tier == 'thorough':
         chk.run_stage('n<=3, full pools',[(f, 'full', 3, [()], s, 64) for f in fams for s in range(64)], set_task)
         chk.run_stage('histories L<=7 (3 assertions)', [(f, 3, 7, (), s, 16) for f in H.HIST_LOGICS_ALL for s in range(16)], hist_task)
